@@ -298,7 +298,6 @@ enum Msg {
 struct Net {
     txs: Vec<Sender<Msg>>,
     barrier: Arc<Barrier>,
-    barrier_rounds: BTreeSet<u64>,
 }
 
 struct ThreadResult {
@@ -325,7 +324,13 @@ fn noise(rng: &mut Rng) {
 
 /// Thread i's workload. `net` = None: alone (the reference); receivers' observations of the modules
 /// this thread gives away are computed here and returned in `observed` under (i, round).
-fn workload(i: u64, cfg: &Cfg, shared: &[FrozenModule], net: Option<(&Net, &Receiver<Msg>)>) -> ThreadResult {
+fn workload(
+    i: u64,
+    cfg: &Cfg,
+    shared: &[FrozenModule],
+    barrier_rounds: &BTreeSet<u64>,
+    net: Option<(&Net, &Receiver<Msg>)>,
+) -> ThreadResult {
     let mut rng = Rng(cfg.seed.wrapping_mul(0x9E3779B97F4A7C15) ^ (i + 1).wrapping_mul(0xD1B54A32D192ED03));
     let mut sched = Rng(cfg.seed ^ 0xABCDEF ^ (i << 32)); // scheduling noise only
     let globals = Globals::standard();
@@ -341,20 +346,24 @@ fn workload(i: u64, cfg: &Cfg, shared: &[FrozenModule], net: Option<(&Net, &Rece
     };
     for r in 0..cfg.rounds {
         if let Some((net, rx)) = net {
-            if net.barrier_rounds.contains(&r) {
+            if barrier_rounds.contains(&r) {
+                // everybody arrives here together and drops what it was given: the decrements of
+                // chunks shared by consecutive heaps of one builder race across threads
                 net.barrier.wait();
+                drain(&mut res, rx);
             }
             noise(&mut sched);
             drain(&mut res, rx);
         }
-        let op = rng.below(8);
+        // the round before a barrier every thread fans modules out to several other threads
+        let op = if barrier_rounds.contains(&(r + 1)) { 8 } else { rng.below(8) };
         let line = match op {
             0 | 1 | 2 => {
                 let tag = format!("t{}r{}", i, r);
                 let src = module_src(&mut rng, cfg.nshared, &tag);
                 match build(&format!("{}.star", tag), &src, &loader, &globals) {
                     Ok((out, fm)) => {
-                        own.push((r, fm));
+                        own.push((r * 8, fm));
                         if own.len() > 4 {
                             own.remove(0);
                         }
@@ -398,6 +407,33 @@ fn workload(i: u64, cfg: &Cfg, shared: &[FrozenModule], net: Option<(&Net, &Rece
                     }
                     format!("sent r{} to {}", round, to)
                 }
+            }
+            8 => {
+                // fan-out: consecutive small heaps of this thread share chunks through its cache
+                let mut outs = Vec::new();
+                for slot in 1..=3u64 {
+                    let tag = format!("t{}r{}f{}", i, r, slot);
+                    let src = module_src(&mut rng, cfg.nshared, &tag);
+                    match build(&format!("{}.star", tag), &src, &loader, &globals) {
+                        Ok((out, fm)) => {
+                            let to = (i + slot) % cfg.threads;
+                            res.nsent += 1;
+                            match net {
+                                Some((net, _)) if to != i => {
+                                    let _ = net.txs[to as usize].send(Msg::Module { from: i, round: r * 8 + slot, fm });
+                                }
+                                _ => {
+                                    let o = use_module(&fm);
+                                    res.observed.insert((i, r * 8 + slot), o);
+                                    drop(fm);
+                                }
+                            }
+                            outs.push(out);
+                        }
+                        Err(e) => outs.push(format!("<build error {}>", e)),
+                    }
+                }
+                outs.join(" ; ")
             }
             _ => {
                 if own.is_empty() {
@@ -485,11 +521,20 @@ fn work(args: &[String]) -> anyhow::Result<()> {
     let want_trace = util::opt_u64(opts, "--trace", 0) == 1;
     let shared = build_shared(&cfg).map_err(|e| anyhow::anyhow!("shared modules: {}", e))?;
 
+    // rounds at which all threads meet (also in the reference: they decide the fan-out rounds)
+    let mut sched = Rng(cfg.seed ^ 0x77);
+    let mut barrier_rounds = BTreeSet::new();
+    barrier_rounds.insert(0);
+    for _ in 0..(cfg.rounds / 5) {
+        barrier_rounds.insert(sched.below(cfg.rounds));
+    }
+
     // sequential reference: each workload alone, on a thread of its own, one after the other
     let mut reference: Vec<ThreadResult> = Vec::new();
     for i in 0..cfg.threads {
         let (c, s) = (cfg.clone(), shared.clone());
-        let r = std::thread::spawn(move || util::catch(|| workload(i, &c, &s, None)))
+        let br = barrier_rounds.clone();
+        let r = std::thread::spawn(move || util::catch(|| workload(i, &c, &s, &br, None)))
             .join()
             .map_err(|_| anyhow::anyhow!("reference thread died"))?
             .map_err(|p| anyhow::anyhow!("reference workload panicked: {}", p))?;
@@ -501,12 +546,6 @@ fn work(args: &[String]) -> anyhow::Result<()> {
     }
 
     // concurrent run
-    let mut sched = Rng(cfg.seed ^ 0x77);
-    let mut barrier_rounds = BTreeSet::new();
-    barrier_rounds.insert(0);
-    for _ in 0..(cfg.rounds / 8) {
-        barrier_rounds.insert(sched.below(cfg.rounds));
-    }
     let mut txs = Vec::new();
     let mut rxs = Vec::new();
     for _ in 0..cfg.threads {
@@ -514,16 +553,16 @@ fn work(args: &[String]) -> anyhow::Result<()> {
         txs.push(tx);
         rxs.push(Some(rx));
     }
-    let net = Arc::new(Net { txs, barrier: Arc::new(Barrier::new(cfg.threads as usize)), barrier_rounds });
+    let net = Arc::new(Net { txs, barrier: Arc::new(Barrier::new(cfg.threads as usize)) });
     if want_trace {
         starlark::verif::global_start();
     }
     let mut joins = Vec::new();
     for i in 0..cfg.threads {
-        let (c, s, n) = (cfg.clone(), shared.clone(), net.clone());
+        let (c, s, n, br) = (cfg.clone(), shared.clone(), net.clone(), barrier_rounds.clone());
         let rx = rxs[i as usize].take().unwrap();
         joins.push(std::thread::spawn(move || {
-            let r = util::catch(|| workload(i, &c, &s, Some((&n, &rx))));
+            let r = util::catch(|| workload(i, &c, &s, &br, Some((&n, &rx))));
             if r.is_err() {
                 // keep the others from waiting forever on a barrier
                 std::process::abort();
